@@ -8,6 +8,9 @@ CHECKS = [
     dict(id="C04", engine="sched", technique="stateless exploration of Dask task schedules (all linear extensions / deviation-bounded) x chunk layouts x shared|serialised executor on the real code",
          text="For every trainer configuration, every composition of the rows (and of the feature axis for k-means/GMM) and both executor models, the controlled scheduler enumerates the task orders of every graph the library submits (all linear extensions of the library tasks when few, else all schedules within the deviation bound) and every execution is compared with the in-memory training. Exhaustive within the stated bounds; schedule- and placement-dependent defects (missing copy-back, chunk-weighted reductions) cannot be reached by the suite's single default-scheduler run.",
          note=TRUST + " Scheduler model: tasks atomic, placement all-shared or all-serialised."),
+    dict(id="C12", engine="sched", technique="stateless exploration of Dask task schedules (deviation-bounded) x all bag partitionings x all labelings x shared|serialised executor on the real code",
+         text="ISV, JFA and i-vector training from a Dask bag is executed for every composition of the statistics into partitions (empty, single-element and class-mixing partitions included), every surjective labeling, both executor models and every task order within the deviation bound, and each execution is compared with in-memory list training; for the i-vector trainer the accumulator reaching every M-step is additionally checked to carry the total count exactly once, for 1..P partitions (both parities at every level of the pairwise tree).",
+         note=TRUST + " Scheduler model: tasks atomic, placement all-shared or all-serialised."),
 ]
 _PENDING = "check not built yet in this round (planned, see DESIGN.md section 10); not claimed until it runs clean"
 NOT_APPLICABLE = [dict(property_id="C%02d" % i, reason=_PENDING) for i in range(1, 21) if "C%02d" % i not in {c["id"] for c in CHECKS}]
